@@ -71,7 +71,7 @@ def build_groups(ctx: Ctx, model_wires):
     q = ctx.quick
     groups = []
     # (a) spec -> code: wires exported from the TLC generator
-    sample3 = set(rng.sample(range(len(model_wires)), min(len(model_wires), 12 if q else 400)))
+    sample3 = set(rng.sample(range(len(model_wires)), min(len(model_wires), 12 if q else 250)))
     for idx, (w, b) in enumerate(model_wires):
         scheds = schedules_for(len(w), rng, three_way=idx in sample3, nrandom=2)
         forms = form_plans(len(w), rng, all_sizes=False) if idx % (8 if q else 2) == 0 else []
@@ -80,7 +80,7 @@ def build_groups(ctx: Ctx, model_wires):
     corpus = mp.handmade_corpus()
     for w, b in corpus:
         n = len(w)
-        scheds = schedules_for(n, rng, three_way=(n <= (62 if q else 140)), nrandom=5 if q else 50)
+        scheds = schedules_for(n, rng, three_way=(n <= (62 if q else 110)), nrandom=5 if q else 50)
         groups.append((w, b, scheds, form_plans(n, rng, all_sizes=n <= (150 if q else 400)), n <= 120))
     for w, b in mp.browser_corpus():
         n = len(w)
@@ -89,18 +89,25 @@ def build_groups(ctx: Ctx, model_wires):
         if not q:
             scheds.append([1] * (n - 1))
         groups.append((w, b, scheds, form_plans(n, rng, all_sizes=not q), False))
-    for _ in range(150 if q else 3000):
+    for _ in range(150 if q else 1200):
         w, b = mp.random_body(rng)
         n = len(w)
-        scheds = schedules_for(n, rng, three_way=(n <= (40 if q else 90)), nrandom=4 if q else 20)
+        scheds = schedules_for(n, rng, three_way=(n <= (40 if q else 70)), nrandom=4 if q else 20)
         groups.append((w, b, scheds, form_plans(n, rng, all_sizes=n <= (80 if q else 200)), False))
     return groups
 
 
-def judge_groups(ctx: Ctx, groups, kind="c01"):
+def judge_groups(ctx: Ctx, groups, kind="c01", slice_size=400):
+    """Record and judge in slices so that memory stays bounded in the thorough tier."""
+    for a in range(0, len(groups), slice_size):
+        _judge_slice(ctx, groups[a:a + slice_size], kind, base=a)
+
+
+def _judge_slice(ctx: Ctx, groups, kind, base):
     results = pmap(_group, groups, workers=ctx.workers, chunksize=4)
     lines, index = [], {}
-    for t, ((w, b, scheds, forms, mh), (cfg, runs)) in enumerate(zip(groups, results)):
+    for t0, ((w, b, scheds, forms, mh), (cfg, runs)) in enumerate(zip(groups, results)):
+        t = base + t0
         cfg["t"] = t
         lines.append(cfg)
         for i, r in enumerate(runs):
@@ -124,7 +131,6 @@ def judge_groups(ctx: Ctx, groups, kind="c01"):
                 "maxmem": ln["maxmem"], "maxparts": ln["maxparts"],
                 "wire_text": bytes(c["wire"]).decode("latin-1")}
         ctx.violation(f"{r['clause']}:{ln['api']}", r["clause"], case, kind=kind)
-    return lines
 
 
 def repo_test_traces(ctx: Ctx):
